@@ -100,3 +100,31 @@ func H_C05_extremes() {
 		vrtAssert(!d.IsNaN() && !d.IsInf(0), "infinities and NaN are never returned as values")
 	}
 }
+
+// c05Near: operands at the edges of binary64 and of the 34-digit precision.
+var c05Near = []string{
+	"9007199254740993", "9007199254740992", "0.1", "0.2", "0.3", "1.000000000000000000000000000000001", "1", "4503599627370496.5", "9007199254740990.3", "9007199254740990",
+	"1e-400", "0", "2e34", "3", "3e-34", "2", "6999999999999999999999999999999999", "0.7", "-2e34", "-3", "1e6144", "10", "0.1000000000000000055511151231257827", "123456789.123456789",
+}
+
+var c05NearExprs = []string{"a + b", "a - b", "a * b", "a / b", "a // b", "a % b", "a == b", "a < b", "a > b", "ceil(a)", "floor(a)", "abs(a)", "sum([a, b])", "avg([a, b])", "-a", "to_number(to_string(a)) == a", "a > `0`", "a == `1`"}
+
+// H_C05_near: concrete operands where binary floating point or premature
+// rounding changes the result; the reference computes with the real
+// decimal128 library (concrete decimals are not modelled but executed).
+func H_C05_near() {
+	expr := c05NearExprs[vrtChoose("expr", len(c05NearExprs))]
+	vrtNote("template:" + expr)
+	a := json.Number(c05Near[vrtChoose("a", len(c05Near))])
+	b := json.Number(c05Near[vrtChoose("b", len(c05Near))])
+	var doc map[string]any
+	if vrtChoose("carrier", 2) == 0 {
+		doc = map[string]any{"a": a, "b": b}
+	} else {
+		da, e1 := decimal128.Parse(string(a))
+		db, e2 := decimal128.Parse(string(b))
+		vrtAssume(e1 == nil && e2 == nil)
+		doc = map[string]any{"a": da, "b": db}
+	}
+	diffSearch(expr, doc, false)
+}
